@@ -63,6 +63,27 @@ CLAIMS = {
             "tie-breaks by name would show.",
             "Names homogeneous (all str or all int) and distinct; integer values.",
             "DESIGN.md 6/C07"),
+    "C08": ("exploration", "targeted property-based testing of worst-case bounds in exact rational arithmetic against an exhaustive optimum, planted optima and published tight families",
+            "greedy, Karmarkar-Karp, multifit (iterations 0..12) and round-robin on generated inputs: largest sum <= (4/3-1/3k) OPT (greedy, kk), "
+            "smallest sum >= (3k-1)/(4k-2) OPT (greedy), largest sum <= (1.22+2^-iterations) OPT (multifit), max-min <= largest item "
+            "(greedy, kk, round-robin), round-robin sums non-increasing in bin index and cardinalities within one. OPT from the exhaustive "
+            "sum-vector oracle (<=10 items), from planted perfect partitions (up to ~300 items) and from LPT's tight family k=2..12 and "
+            "multifit's 13-bin instance, scaled and permuted. hypothesis.target drives the small leg towards ratio/bound = 1.",
+            "The bounds are those stated in the property; bins multifit leaves unopened count as empty bins.",
+            "DESIGN.md 6/C08"),
+    "C09": ("exploration", "targeted property-based testing of a pairwise invariant and count bounds against an exact bitmask-DP optimum and planted optima",
+            "first-fit, best-fit and their decreasing variants on generated arrival orders (ints and eighths, up to 60 items; planted exactly-full "
+            "bins up to 25 bins; the classical 5/3 arrival order): for every pair of bins i<j, sum(bin i) + first item of bin j > bin size; bins "
+            "<= floor(1.7 OPT), FFD <= 11/9 OPT + 6/9, BFD <= 11/9 OPT + 4 wherever OPT is known exactly (bitmask DP <= 14 items, or by construction).",
+            "Bin order of the Partition output is the opening order; a non-empty all-zero input has OPT 1.",
+            "DESIGN.md 6/C09"),
+    "C10": ("exploration", "targeted property-based testing of approximation guarantees against an exact bitmask-DP optimum, planted covers and published worst-case families",
+            "decreasing, two-thirds and three-quarters covering on generated inputs: the returned bins are a valid cover, the reported BinCount "
+            "equals the number of returned bins and never exceeds OPT (<= floor(total/binsize)), and bins >= (OPT-1)/2 | 2/3 (OPT-1) | 3/4 OPT - 4. "
+            "OPT exact up to 14 items; beyond that planted exactly-full bins (up to 120 bins, ~1400 items, four construction styles) and the "
+            "published CFLZ families k=1..20 give a lower bound on OPT, perturbed by up to 4 extra items and a generated arrival order.",
+            "The guarantees are increasing in OPT, so a count below the guarantee at a certified lower bound of OPT is a violation.",
+            "DESIGN.md 6/C10"),
     "C14": ("exploration", "differential property-based testing against reference models transcribed from the documentation",
             "Each of the nine simple heuristics is compared with a direct transcription of its documented rule "
             "(pbt/refmodels.py) on up to 40 items incl. ties, exact fills and the class thresholds C/2, C/3: sorted bin "
